@@ -177,7 +177,9 @@ def run_sim(chk, wd, scns, trace_module, *, label="sim", shards=12, sig_of=None,
                 sig = sig_of(s, traces.get(sid, []), why) if sig_of else f"{label}:rejected"
                 what = what_of(s, traces.get(sid, []), why) if what_of else f"scenario {sid} ({json.dumps({k: v for k, v in s.items() if k not in ('steps', 'handlers', 'default_handler', 'cfg')})[:200]}) is not a behaviour of {trace_module}: {why[:120]}"
                 chk.violation(sig, what, {"kind": "scenario", "trace_module": trace_module, "trace_cfg": trace_cfg, "runner": runner, "scenario": s, "trace": traces.get(sid, []), "why": why})
-        if not keep_traces:
+        if os.environ.get("VERIF_KEEP"):
+            json.dump({"trace": tf, "trace_module": trace_module, "trace_cfg": trace_cfg, "runner": runner}, open(tf + ".meta.json", "w"))
+        elif not keep_traces:
             try:
                 os.remove(tf)
             except OSError:
